@@ -84,6 +84,14 @@ func mk() *fixtures {
 	return f
 }
 
+var zones = []string{"UTC", "Europe/Berlin", "Europe/London", "Europe/Paris", "Europe/Madrid", "Europe/Rome", "Europe/Vienna", "Europe/Zurich", "Europe/Oslo", "Europe/Stockholm",
+	"Europe/Helsinki", "Europe/Warsaw", "Europe/Prague", "Europe/Athens", "Europe/Lisbon", "Europe/Dublin", "Europe/Amsterdam", "Europe/Brussels", "Europe/Budapest", "Europe/Kyiv",
+	"America/New_York", "America/Chicago", "America/Denver", "America/Los_Angeles", "America/Anchorage", "America/Toronto", "America/Vancouver", "America/Mexico_City", "America/Sao_Paulo", "America/Bogota",
+	"America/Lima", "America/Santiago", "America/Caracas", "America/Halifax", "America/Phoenix", "Asia/Tokyo", "Asia/Seoul", "Asia/Shanghai", "Asia/Hong_Kong", "Asia/Singapore",
+	"Asia/Kolkata", "Asia/Dubai", "Asia/Karachi", "Asia/Dhaka", "Asia/Bangkok", "Asia/Jakarta", "Asia/Manila", "Asia/Tehran", "Asia/Jerusalem", "Asia/Riyadh",
+	"Australia/Sydney", "Australia/Melbourne", "Australia/Perth", "Australia/Brisbane", "Pacific/Auckland", "Pacific/Honolulu", "Pacific/Fiji", "Africa/Cairo", "Africa/Lagos", "Africa/Nairobi",
+	"Africa/Johannesburg", "Africa/Casablanca", "Atlantic/Reykjavik", "Indian/Maldives"}
+
 func stamp(s string) string { // drop what legitimately depends on the clock
 	return s
 }
@@ -92,7 +100,7 @@ func stamp(s string) string { // drop what legitimately depends on the clock
 func script(f *fixtures, g, r int) []string {
 	var out []string
 	add := func(format string, a ...interface{}) { out = append(out, fmt.Sprintf(format, a...)) }
-	switch (g + r) % 6 {
+	switch (g + r) % 7 {
 	case 0: // own account object decoded from the shared token text: validate (writes Trace.Sampling), mutate, encode
 		ac, err := jwt.DecodeAccountClaims(f.acctTok)
 		must(err)
@@ -151,6 +159,28 @@ func script(f *fixtures, g, r int) []string {
 		must(err)
 		b2, _ := jwt.DecodeUserClaims(t2)
 		add("issued name=%s empty=%v", b2.Name, b2.HasEmptyPermissions())
+	case 5: // user claims with a time zone, time ranges and source networks nobody has used before in this process:
+		// lazily initialised or memoised shared state (zone tables, caches) is touched for the first time concurrently
+		u := jwt.NewUserClaims(f.sharedUser.Subject)
+		u.Locale = zones[(g*131+r*17)%len(zones)]
+		u.Times = append(u.Times, jwt.TimeRange{Start: fmt.Sprintf("%02d:00:00", (g+r)%24), End: fmt.Sprintf("%02d:30:00", (g+r)%24)})
+		u.Src.Add(fmt.Sprintf("10.%d.%d.0/24", g%250, r%250))
+		u.Pub.Allow.Add(fmt.Sprintf("s%d.%d.>", g, r))
+		vr := jwt.CreateValidationResults()
+		u.Validate(vr)
+		add("zone user blocking=%v issues=%d", vr.IsBlocking(true), len(vr.Issues))
+		tok, err := u.Encode(f.akp)
+		must(err)
+		b, err := jwt.DecodeUserClaims(tok)
+		must(err)
+		vr2 := jwt.CreateValidationResults()
+		b.Validate(vr2)
+		add("zone user back locale=%s issues=%d", b.Locale, len(vr2.Issues))
+		bad := jwt.NewUserClaims(f.sharedUser.Subject)
+		bad.Locale = fmt.Sprintf("No/Such_%d_%d", g, r)
+		vr3 := jwt.CreateValidationResults()
+		bad.Validate(vr3)
+		add("bad zone blocking=%v", vr3.IsBlocking(true))
 	default: // activation + operator
 		a, err := jwt.DecodeActivationClaims(f.actTok)
 		must(err)
@@ -173,13 +203,6 @@ func main() {
 	flag.Parse()
 	runtime.GOMAXPROCS(*procs)
 	f := mk()
-	// sequential reference
-	ref := make([][]string, *n)
-	for g := 0; g < *n; g++ {
-		for r := 0; r < *rounds; r++ {
-			ref[g] = append(ref[g], script(f, g, r)...)
-		}
-	}
 	got := make([][]string, *n)
 	var wg sync.WaitGroup
 	for g := 0; g < *n; g++ {
@@ -192,6 +215,14 @@ func main() {
 		}(g)
 	}
 	wg.Wait()
+	// sequential reference AFTER the concurrent phase: run first it would warm up every lazily initialised
+	// piece of shared state and hide first-use races
+	ref := make([][]string, *n)
+	for g := 0; g < *n; g++ {
+		for r := 0; r < *rounds; r++ {
+			ref[g] = append(ref[g], script(f, g, r)...)
+		}
+	}
 	mism := 0
 	var first string
 	for g := range ref {
